@@ -19,10 +19,11 @@ CHECKS = {
             "Every DrawTarget call with out-of-range arguments is executed on the real crate; the monitor requires Ok, the decoded "
             "framebuffer to equal the picture with the outside points dropped, no cell outside the panel window and no address "
             "outside the controller framebuffer.", "7/C02"),
-    "C03": ("TLA+ spec + TLC trace validation of draw_iter streams (distinct colour per element) against last-write-wins painting",
+    "C03": ("TLA+ spec + TLC trace validation of draw_iter streams (distinct colour per element) against last-write-wins painting; TLC models MC_Batch_* (every short stream) and MC_Fused (iterator polling protocol)",
             "Streams built around the row/block capacities (49/50/51, 99/100/101, stacked equal rows, shape changes, repeats) are "
-            "executed with and without the batch feature; the decoded framebuffer must equal the in-order painting.", "7/C03"),
-    "C04": ("TLA+ spec + TLC trace validation of fill_contiguous with index-coded colour streams",
+            "executed with and without the batch feature, also from iterators that are not fused (the stream ends at its first None); "
+            "the decoded framebuffer must equal the in-order painting.", "7/C03"),
+    "C04": ("TLA+ spec + TLC trace validation of fill_contiguous with index-coded colour streams; TLC models MC_Small clip16, MC_Fused",
             "Every small rectangle around small displays, boundary-value rectangles and stream lengths around the area; decoded "
             "framebuffer must carry colour k on point k; pulls from an unbounded source are bounded.", "7/C04"),
     "C08": ("TLA+ framing automaton over the interface-level reconstruction of every drawing call (trace validation with TLC)",
@@ -36,12 +37,13 @@ CHECKS = {
             "capacity; SPI bursts use at most floor(b/usable)+1 transactions.", "7/C20"),
     "C06": ("TLA+ spec (Wire/Controller) + TLC trace validation of the real SpiInterface over a recording SPI device",
             "For every interface-level call the bytes seen under D/C low/high must be exactly instruction / parameters / pixel "
-            "bytes in order; the transaction count is bounded (a non-terminating loop is cut by an operation budget and rejected).", "7/C06"),
-    "C07": ("TLA+ spec (Wire strobe sampling) + TLC trace validation of the real ParallelInterface and Generic8/16BitBus over recording pins",
+            "bytes in order; the transaction count is bounded (a non-terminating loop is cut by an operation budget and rejected); "
+            "repeat counts up to 2^32-1 must still be sending the pattern when the budget ends.", "7/C06"),
+    "C07": ("TLA+ spec (Wire strobe sampling) + TLC trace validation of the real ParallelInterface and Generic8/16BitBus over recording pins; TLC step machines MC_Parallel, MC_ParXfer",
             "The (D/C, data) samples at every WR rising edge must be exactly the words sent; after every successful set_value - "
             "whatever failed before - the pins show the value (walking-one/zero alphabets distinguish every pin).", "7/C07"),
-    "C09": ("TLA+ InitVerdict over mathematical integers + TLC trace validation of real Builder::init calls",
-            "Boundary grid and seeded random (w,h,ox,oy) on framebuffers 1x1 .. 65535x65535, with and without reset pin: "
+    "C09": ("TLA+ InitVerdict over mathematical integers + TLC trace validation of real Builder::init calls; TLC model MC_Builder whose call sequences are executed on the real Builder",
+            "Boundary grid and seeded random (w,h,ox,oy) on framebuffers 1x1 .. 65535x65535 and on all 14 built-in models, with and without reset pin, Builder calls in any order: "
             "verdict must equal the integer predicate and a rejected init must have performed no operation at all.", "7/C09"),
     "C11": ("TLA+ controller model + TLC trace validation of every model's real init on every interface kind",
             "After init the decoded controller state must be awake, on, MADCTL = encoding of the options, COLMOD matching the "
@@ -110,7 +112,7 @@ def build():
         ],
         "checks": checks,
         "not_applicable": NOT_APPLICABLE,
-        "notes": "See DESIGN.md. Exit 2 = tool error. Known findings: known_findings.txt.",
+        "notes": "See DESIGN.md. Exit 2 = tool error. Known findings: known_findings.txt (seven defects found on the pinned tree, all repaired in /repo by unguarded fix: commits 3ea2894 b28442c 0bc5833 11910b9 85dd892 4333934 7768fca; no open finding).",
     }
 
 
